@@ -14,8 +14,15 @@
    (keyword rho/theta, normalize left at its default True in BOTH the fit and the re-composition,
    re-composition with the REQUESTED modes), the ValueError of zernike_index for j < 1 and the
    size/shape errors of einsum and of the final subtraction.
-   Not modelled: modes given as a scalar or a nested array; rho without theta (ValueError);
-   numpy broadcasting of an opd whose shape differs from the mask's (the model refuses it). *)
+   Argument forms: the coordinate arguments (rho, theta) are modelled as given ([coordarg]: none, both,
+   rho alone -> ValueError from the first mode evaluated, theta alone -> silently the default
+   coordinates); a scalar [modes] is the one-element list (np.atleast_1d / newaxis); containers
+   (list, tuple, ndarray of any integer dtype), memory layout (C, Fortran, strided views) and the
+   dtype of opd / mask do not reach the model: they denote the same values, and the tie checks that
+   lentil agrees.  Repeated modes make the family dependent: the solver contract does not apply
+   (the executed solver answers Err; the tie decides those calls by the oracle only).
+   Not modelled: modes given as a nested (2-d) array; numpy broadcasting of an opd whose shape
+   differs from the mask's (the model refuses it). *)
 From LV Require Export Lib.Arr Lib.Lsq.
 
 Section ZernikeFit.
@@ -69,6 +76,24 @@ Definition zernike_remove (opd mask : arr S) (modes : list Z) (crd : option Crd)
           (fun r c => (get opd r c
                        - sumZ (Z.of_nat (length modes))
                               (fun i => (get (zernike mask (nthmode modes i) true crd) r c * nthZ coeffs i)%K))%K))).
+
+(* ---- the coordinate arguments as the caller passes them ----
+   zernike():  if rho is None: rho, theta = zernike_coordinates(mask)     (a lone theta is dropped)
+               elif theta is None: raise ValueError                        (first mode evaluated) *)
+Inductive coordarg := CNone | CBoth (x : Crd) | CRhoOnly | CThetaOnly.
+Definition coords_of (a : coordarg) : option Crd := match a with CBoth x => Some x | _ => None end.
+Definition coords_err (a : coordarg) (ncalls : nat) : bool :=
+  match a with CRhoOnly => negb (Nat.eqb ncalls 0) | _ => false end.
+
+Definition zernike_compose_a (mask : arr S) (coeffs : list S) (normalize : bool) (a : coordarg) : result (arr S) :=
+  if coords_err a (length coeffs) then Err ValueError else Ok (zernike_compose mask coeffs normalize (coords_of a)).
+Definition zernike_fit_a (opd mask : arr S) (modes : list Z) (normalize : bool) (a : coordarg) : result (list S) :=
+  if coords_err a (length modes) then Err ValueError else zernike_fit opd mask modes normalize (coords_of a).
+Definition zernike_remove_a (opd mask : arr S) (modes : list Z) (a : coordarg) : result (arr S) :=
+  if coords_err a (length modes) then Err ValueError else zernike_remove opd mask modes (coords_of a).
 End ZernikeFit.
+Arguments CNone {Crd}. Arguments CBoth {Crd}. Arguments CRhoOnly {Crd}. Arguments CThetaOnly {Crd}.
+Arguments coords_of {Crd}. Arguments coords_err {Crd}.
+Arguments zernike_compose_a {S Crd}. Arguments zernike_fit_a {S Crd}. Arguments zernike_remove_a {S Crd}.
 Arguments scatter {S}. Arguments zernike {S Crd}. Arguments zernike_compose {S Crd}. Arguments ravel {S}.
 Arguments basis_mat {S Crd}. Arguments zernike_fit {S Crd}. Arguments zernike_remove {S Crd}.
